@@ -46,10 +46,13 @@ Dec(v) == IF v >= 900 THEN 899 - v ELSE v      \* cfg files cannot hold negative
 \* (flag set and width are part of the initial state only to spread TLC's work: all successors of one state are computed by one worker)
 Init == st \in {[fn |-> "init", f |-> fn, cv |-> cv, fi |-> fi, w |-> w] : fn \in Fns, cv \in Convs, fi \in FlagSets, w \in {Dec(v) : v \in Widths}}
 
-(* shapes: 1 = <dir>   2 = "a" <dir> "n"   3 = "%%" <dir>   4 = <dir> " %d"   5 = "%%" <text of dir without its %>   6 = "a%1$" <rest of dir> *)
+(* shapes: 1 = <dir>   2 = "a" <dir> "n"   3 = "%%" <dir>   4 = <dir> " %d"   5 = "%%" <text of dir without its %>   6 = "a%1$" <rest of dir>   7 = "a%[" <dir>   8 = "%[]" <dir>   9 = "%[^]" <dir> "]" *)
 Build(shape, d) == CASE shape = 1 -> d [] shape = 2 -> <<97>> \o d \o <<110>> [] shape = 3 -> <<37, 37>> \o d [] shape = 4 -> d \o <<32, 37, 100>>
                      [] shape = 5 -> <<37, 37>> \o Tail(d)         \* an escaped percent followed by the directive's text: all literals
                      [] shape = 6 -> <<97, 37, 49, 36>> \o Tail(d)  \* "a%1$<flags><width>...": the numbered-argument spelling of the directive
+                     \* printf has no scan sets: "%[" is an invalid directive which libc prints, going on with what follows (the scanf reading of
+                     \* the same text - a set that swallows the directive - does not apply to the printf family)
+                     [] shape = 7 -> <<97, 37, 91>> \o d [] shape = 8 -> <<37, 91, 93>> \o d [] shape = 9 -> <<37, 91, 94, 93>> \o d \o <<93>>
 Next ==
   /\ st.fn = "init"
   /\ \E p \in {Dec(v) : v \in Precs}, ln \in Lens, shape \in Shapes, loc \in {0, 1}, rel \in {0, 1, 3} :
@@ -69,6 +72,7 @@ Next ==
                /\ (cv \in {99, 115} => ln \in {"", "l"}) /\ (cv = 37 => ln = "") /\ (cv = 110 => ln # "L")
                /\ (cv = 37 => (fi = 0 /\ w = -1 /\ p = -1))             \* "%%" is the complete specification
                /\ (shape = 5 => (w # -2 /\ p # -2))
+               /\ (shape \in {7, 8, 9} => cv = 110)
                /\ (shape = 6 => (w # -2 /\ p # -2 /\ cv # 37))       \* (a numbered directive takes all its arguments by number: no plain '*')
                /\ st' = [fn |-> st.f, fmt |-> fmt, at |-> at, av |-> av, loc |-> loc, dmax |-> IF tl + rel = 0 THEN 1 ELSE tl + rel, tlen |-> tl,
                          shape |-> shape, fi |-> fi, w |-> w, p |-> p, ln |-> ln, cv |-> cv]
@@ -96,7 +100,9 @@ SpecAll == Init /\ [][Next \/ NextScan]_st
 Spec == Init /\ [][Next]_st
 
 (* ---- grammar-level properties of the contract, checked on every enumerated call ---- *)
-DirOf(s) == LET P == Parse(s.fmt) IN CHOOSE i \in 1..Len(P) : P[i].k = "dir" /\ (s.shape # 3 \/ i > 1)
+DirOf(s) == LET P == Parse(s.fmt) IN
+            IF s.shape \in {7, 8, 9} THEN CHOOSE i \in 1..Len(P) : P[i].k = "dir" /\ \A j \in (i + 1)..Len(P) : P[j].k # "dir"      \* behind the invalid "%["
+            ELSE CHOOSE i \in 1..Len(P) : P[i].k = "dir" /\ (s.shape # 3 \/ i > 1)
 ParserRecovers ==
   (st.fn \notin {"init", "scan"} /\ st.shape # 5) =>
     LET P == Parse(st.fmt)
